@@ -117,6 +117,20 @@ def generate(rng, tier):
         for first in ([C.sl(1, 4)], [C.sl(), C.sl(1, None)], [C.sl(1, -1), C.sl(2, None)], [C.sl(None, -1), C.sl(1, 3)]):
             for second in ([C.sl(None, -1)], [C.sl(-2, -1)], [C.sl(), C.sl(None, -1)], [C.sl(0, -1), C.sl(-2, None)], [-1, C.sl(None, -1)]):
                 yield mk_case(rng, shape, first + [C.sl()] * (nd - len(first)), chain=second, fam=rng.choice(["probe", "fits_sep"]))
+    # systematic: narrow numpy integers on a long axis (first step), then a second range step on the result
+    for shape in ([300], [300, 2]):
+        for it, ch in ((-3, None), (C.sl(-100, None), None), (C.sl(250, None), [C.sl(10, None)]), (C.sl(200, 290), [C.sl(5, -5)]),
+                       (C.sl(-120, -20), [C.sl(60, None)]), (127, None), (C.sl(100, 228), [C.sl(100, None)])):
+            case = mk_case(rng, shape, [it] + [C.sl()] * (len(shape) - 1), chain=ch, fam="fits_sep")
+            case["narrow"] = True
+            yield case
+    # systematic: bounds far beyond the axis (numpy clamps them, however large: sys.maxsize, 2**31, 2**40 ...)
+    for shape in ([5], [3, 5], [2, 3, 4]):
+        nd = len(shape)
+        for big in (2 ** 31, 2 ** 40, 2 ** 63 - 1):
+            for items in ([C.sl(1, big)], [C.sl(-big, 2)], [C.sl(), C.sl(2, big + 3)][:nd] if nd >= 2 else [C.sl(0, big)],
+                          [C.sl(-big, big)] * nd):
+                yield mk_case(rng, shape, list(items), fam=rng.choice(["probe", "fits_sep"]))
     for k in range(n_random):
         nd = rng.choice([1, 2, 2, 3, 3, 4])
         shape = [rng.randint(1, 5) for _ in range(nd)]
@@ -175,6 +189,15 @@ def run(case):
     shape = tuple(case["shape"])
     items = case["items"]
     idx = C.to_py_index(items, case.get("bare", False), C.npint_of(case))
+    if case.get("narrow"):
+        # integers of the narrowest numpy type that holds them (int8 / uint8 / int16), on an axis longer than that
+        # type's range: valid indices all the same
+        def nar(x):
+            if x is None or isinstance(x, type(Ellipsis)):
+                return x
+            x = int(x)
+            return np.int8(x) if -128 <= x < 128 else (np.uint8(x) if 0 <= x < 256 else np.int16(x))
+        idx = tuple(slice(nar(i.start), nar(i.stop), i.step) if isinstance(i, slice) else nar(i) for i in (idx if isinstance(idx, tuple) else (idx,)))
     ref = np.arange(int(np.prod(shape)), dtype=float).reshape(shape)
     tags = [f"ndim={len(shape)}", f"fam={case['fam']}", f"payload={case['payload']}", f"mask={case['mask']}",
             f"with_shape={case['with_shape']}"] + [f"item={C.item_kind(i)}" for i in items]
